@@ -339,6 +339,31 @@ theorem C03_delete_pack_states (st : Store) (pre post name dg body : Bytes) (f :
     rw [getElem?_modifyNth]
     simp [hj]
 
+/-- **the program-order states of a removal are safe for the pack-only readers**: `delete` rewrites the
+header FIRST (the order `C03_gen_delete_effects` pins on the source: `WriteAt` before the hole punch /
+zero fill); from then on, whatever the body bytes `B` are (untouched, half zeroed, zeroed), the record
+has the deleted form: the walker – hence Reindex – reports it as deleted and the streamer skips it,
+so neither can present a reclaimed body as the blob -/
+theorem C03_delete_program_order_pack_safe (okRef : Bytes → Bool) (cf : Bool) (rs1 rs2 : List Rec)
+    (name dg B : Bytes) (h1 : name ≠ []) (h2 : dg ≠ []) (hl : name.length + dg.length + 1 ≤ 480)
+    (hB : B.length < 4294967296)
+    (hrs1 : ∀ x ∈ rs1, recOK okRef x = true) (hrs2 : ∀ x ∈ rs2, recOK okRef x = true) :
+    walkPack okRef cf (encodePack (rs1 ++ ⟨delRef name dg, B⟩ :: rs2)) =
+      (entriesOf (rs1 ++ ⟨delRef name dg, B⟩ :: rs2) 0, none) ∧
+    (∀ pos, (entryOf ⟨delRef name dg, B⟩ pos).ref = none) ∧
+    liveOf (rs1 ++ ⟨delRef name dg, B⟩ :: rs2) = liveOf rs1 ++ liveOf rs2 := by
+  have hd := isDeletedRef_delRef name dg h1 h2
+  refine ⟨C03_walk_encode okRef cf _ ?_, fun pos => by simp [entryOf, hd], ?_⟩
+  · intro x hx
+    rcases List.mem_append.mp hx with hx | hx
+    · exact hrs1 x hx
+    · rcases List.mem_cons.mp hx with hx | hx
+      · subst hx; exact recOK_delRef okRef name dg B h1 h2 hl hB
+      · exact hrs2 x hx
+  · rw [liveOf_append]; simp [liveOf, hd]
+
+example : delRef [98] [99] = [120, 45, 48] ∧ isDeletedRef (delRef [98] [99]) = true := by decide
+
 /-- **crash states of a removal, the part that holds**: in every subset state of {header rewritten, body
 zeroed, row deleted} in which the body is zeroed only if the row is gone, the blob being removed is
 either served complete or not at all; and in ALL eight states every other blob whose bytes do not
